@@ -25,7 +25,9 @@ SCH = gen.schema(
            gen.stype('ta', [gen.key('ka')], implements='aa'),
            gen.stype('tb', [gen.key('kb')]),
            gen.stype('tc', [gen.key('kc')], extends='ta'),
-           gen.stype('td', [gen.key('kd')], implements='ab')],
+           gen.stype('td', [gen.key('kd')], implements='ab'),
+           # an implementer that declares nothing at all (an empty type object is falsy)
+           gen.stype('te', [], implements='aa')],
     items=[gen.multisection('aa', '*', attr='xs'),
            gen.section('tb', '*', attr='sb'),
            gen.section('ab', 'sa'),
@@ -262,7 +264,7 @@ class C12(P.TextMixin, Harness):
                 continue
             r = CF.evaluate(VIEW, g[1], packages=PACKAGES)
             out.append(r if r[0] != 'reject' else ('reject',))
-        base = [['ta'], ['td']]
+        base = [['ta', 'te'], ['td']]
         return ('seq', out, base, base)
 
     def agree(self, unit, real, exp):
